@@ -318,7 +318,7 @@ class Fn:
         self._rescan()
         return n
 
-    def annotate_closure(self, param, typed, ret, nth=None, expect=None):
+    def annotate_closure(self, param, typed, ret, nth=None, expect=None, first_stmt=''):
         """R-closure: `|param| BODY` -> `|typed| -> (ret) { BODY }` (BODY verbatim).
         `ret` may contain $BODY, replaced by the closure's own body expression, e.g.
         "o: (u32, u32)) ensures o == ($BODY" is written as ret='(o: T) ensures o == ($BODY)'.
@@ -364,7 +364,7 @@ class Fn:
                         break
                     e += 1
                 body = self.text[j:e].rstrip()
-            new = '|%s| -> %s { %s }' % (typed, ret.replace('$BODY', body), body)
+            new = '|%s| -> %s { %s%s }' % (typed, ret.replace('$BODY', body), first_stmt, body)
             edits.append((m.start(), e, new))
         out = []
         pos = 0
@@ -684,6 +684,37 @@ class Fn:
         else:
             pos = self.stmt_start_before(last[0])
         self.insert(pos, text.rstrip() + '\n', order=5)
+
+    def add_attr(self, text):
+        pos = self.text.rfind('\n', 0, self.fn_kw) + 1
+        ind = re.match(r'\s*', self.text[pos:]).group(0)
+        self.insert(pos, ''.join(ind + l.strip() + '\n' for l in text.strip().split('\n')), order=-5)
+
+    def stmt_anchor(self, k, nm, where, prefix, text):
+        """Structural statement anchor: statement n of exactly m statements directly inside the body of loop k
+        (k None: the function body).  A different statement count, or a statement that does not start with the
+        given code prefix (whitespace-insensitive), is a lost anchor -- never a failed proof."""
+        n, m = (int(x) for x in nm.split('/'))
+        if k is None:
+            st = self.top_level_stmts()
+            what = 'body'
+        else:
+            l = self.loop(k)
+            st = self.block_stmts(l['hdr_end'], l['body_close'])
+            what = 'loop %d' % k
+        if len(st) != m:
+            raise LostAnchor('%s: %s has %d statements, overlay expects %d' % (self.name, what, len(st), m))
+        a, b = st[n - 1]
+        if prefix:
+            got = ''.join(self.text[a:b].split())
+            if not got.startswith(''.join(prefix.split())):
+                raise LostAnchor('%s: statement %d of %s does not start with %r' % (self.name, n, what, prefix))
+        if where == 'before':
+            self.insert(self.stmt_start_before(a), text.rstrip() + '\n', order=5)
+        elif where == 'after':
+            self.insert(b, '\n' + text.rstrip() + '\n', order=5)
+        else:
+            raise ValueError('stmt anchor: before|after expected')
 
     def loop_pre(self, k, text):
         l = self.loop(k)
